@@ -226,6 +226,7 @@ def self_test():
 
 
 LAWS = [
+    given_law("oracle_xl", geometry(max_wfs=6, max_n=10, max_layers=4), cov_body, {"quick": 0, "thorough": 25}, shards={"quick": 1, "thorough": 16}),
     given_law("oracle", geometry(), cov_body, {"quick": 70, "thorough": 600}, shards={"quick": 6, "thorough": 16}),
     given_law("metamorphic", meta_cases(), meta_body, {"quick": 35, "thorough": 250}, shards={"quick": 4, "thorough": 16}),
 ]
